@@ -9,6 +9,7 @@ package main
 
 import (
 	"go/token"
+	"go/types"
 
 	"golang.org/x/tools/go/ssa"
 )
@@ -183,12 +184,21 @@ func (r *Region) Origins(v RV) []RV {
 		case *ssa.ChangeType:
 			walk(x.X, c, via, d+1)
 			return
+		case *ssa.Convert:
+			if isStringType(x.Type()) == isStringType(x.X.Type()) {
+				walk(x.X, c, via, d+1)
+				return
+			}
 		case *ssa.Field:
 			// field of an element of a local table that a loop ranges over: the values the table holds in that field
 			if vals := tableFieldValues(x.X, x.Field); len(vals) > 0 {
 				for _, tv := range vals {
 					walk(tv, c, via, d+1)
 				}
+				return
+			}
+			// field of a struct value that is a literal built elsewhere in the region (a helper's result, an argument)
+			if r.walkLiteralField(RV{V: x.X, C: c}, x.Field, func(fv RV) { walk(fv.V, fv.C, via, d+1) }) {
 				return
 			}
 		case *ssa.UnOp:
@@ -219,6 +229,18 @@ func (r *Region) Origins(v RV) []RV {
 				}
 				if handled {
 					return
+				}
+			}
+			if fa, ok := x.X.(*ssa.FieldAddr); ok {
+				// field of a struct parameter (spilled to a local): the field of the literal the caller passed
+				if al, ok := fa.X.(*ssa.Alloc); ok {
+					if sv := wholeStore(al); sv != nil {
+						if _, isStruct := sv.Type().Underlying().(*types.Struct); isStruct {
+							if r.walkLiteralField(RV{V: sv, C: c}, fa.Field, func(fv RV) { walk(fv.V, fv.C, via, d+1) }) {
+								return
+							}
+						}
+					}
 				}
 			}
 			if fa, ok := x.X.(*ssa.FieldAddr); ok {
@@ -267,6 +289,48 @@ func (r *Region) Origins(v RV) []RV {
 	}
 	walk(v.V, v.C, v.Via, 0)
 	return out
+}
+
+// walkLiteralField: sv is a struct value; for every origin of it that is a composite literal (a local assigned field by
+// field) calls visit with what the literal stores into field fld; reports whether every origin was such a literal.
+func (r *Region) walkLiteralField(sv RV, fld int, visit func(RV)) bool {
+	os := r.Origins(sv)
+	if len(os) == 0 {
+		return false
+	}
+	var vals []RV
+	for _, o := range os {
+		var al *ssa.Alloc
+		switch y := o.V.(type) {
+		case *ssa.Alloc:
+			al = y
+		case *ssa.UnOp:
+			al, _ = y.X.(*ssa.Alloc)
+		}
+		if al == nil {
+			return false
+		}
+		var st *ssa.Store
+		n := 0
+		for _, rf := range *al.Referrers() {
+			if fa, ok := rf.(*ssa.FieldAddr); ok && fa.Field == fld {
+				for _, r2 := range *fa.Referrers() {
+					if s2, ok := r2.(*ssa.Store); ok && s2.Addr == ssa.Value(fa) {
+						st = s2
+						n++
+					}
+				}
+			}
+		}
+		if n != 1 {
+			return false
+		}
+		vals = append(vals, RV{V: st.Val, C: o.C})
+	}
+	for _, v := range vals {
+		visit(v)
+	}
+	return true
 }
 
 // tableFieldValues: base is (the address of, or a copy of) an element, selected by a loop index, of an array or slice
